@@ -4,7 +4,7 @@ EXTENDS Build, Json, IOUtils, SequencesExt
 MCCfgs == [entry : {"main.asm", "src/start.asm"}, tdir : {"target", "out/bin"}, listing : BOOLEAN, symbols : BOOLEAN,
            fmt : {"none", "prg", "bin"}, ofn : {"", "image.dat"}, banks : {0, 1, 2}, imports : BOOLEAN,
            cwd : {"root", "sub"}, style : {"Short", "Medium", "Rich"}]
-Faults == {"none", "config", "parse", "codegen", "importparse"}
+Faults == {"none", "config", "parse", "codegen", "importparse", "bpl0"}
 Cases == {[cfg |-> c, fault |-> f, outcome |-> Outcome(c, f), dir |-> DirExpected(c, f),
            bank |-> SetToSeq(BankFiles(c)), lst |-> SetToSeq(ListingFiles(c)), sym |-> SetToSeq(SymbolFiles(c)), all |-> SetToSeq(Names)]
           : <<c, f>> \in {p \in MCCfgs \X Faults : p[2] # "importparse" \/ p[1].imports}}
